@@ -1443,6 +1443,7 @@ Proof.
       destruct (fs rg); try discriminate. reflexivity.
     + apply inv_irrelevant; auto. apply (inv_fields pop); auto.
   - (* ACheck *) exact Ip.
+  - (* ALogVal *) exact Ip.
 Qed.
 
 Lemma inv_fiber_step : forall f s, inv s -> cur s = Some f -> inv (fst (fiber_step cf draws alloc f s)).
